@@ -1,5 +1,8 @@
 //! mon: one sub-command per property; each invocation is one single-threaded shard.
 mod c01;
+mod c05;
+mod c10;
+mod c11;
 mod common;
 
 use vmon::shard::Args;
@@ -11,6 +14,9 @@ fn main() {
     let a = args.clone();
     common::with_big_stack(move || match a.prop.as_str() {
         "c01" => c01::run(&a),
+        "c05" => c05::run(&a),
+        "c10" => c10::run(&a),
+        "c11" => c11::run(&a),
         other => {
             eprintln!("unknown sub-command {other}");
             std::process::exit(3);
